@@ -74,7 +74,7 @@ def startFails (b : HB) : Bool := b == .err || b == .panic || b == .block
 /-- number of OnStart hooks that run: up to and including the first that fails -/
 def runCount : List HB → Nat
   | [] => 0
-  | b :: rest => if startFails b then 1 else 1 + runCount rest
+  | b :: rest => if startFails b then 1 else runCount rest + 1
 
 /-- "before the listener opens": no OnStart hook sees the application serving -/
 def startProbeOk : Ev → Bool
@@ -152,22 +152,32 @@ def allComplete (o : Obs) : Bool :=
 def eachOnce (tags : List (Bool × Nat)) (n : Nat) : Bool :=
   (List.range n).all fun i => tags.count (true, i) == 1 && tags.count (false, i) == 1
 
-/-- "… then in-flight requests are drained, then telemetry is flushed, then OnStop hooks run, each
-    exactly once, and Start returns only afterwards" -/
-def tailOk (sc : Scenario) (o : Obs) : Bool :=
-  let L := o.log
-  L.filterMap shutTag == seqDown sc.shuts.length 0 &&
+/-- "Every request accepted before the signal receives its complete response unless the shutdown
+    timeout expires" — and the timeout may only expire for a reason -/
+def requestsOk (sc : Scenario) (o : Obs) : Bool :=
   (o.res != .errDrain || timeoutLegit sc) &&
   (o.res != .ok || allComplete o) &&
   (o.res == .errDrain || o.reqs.all (· != .incomplete)) &&
-  L.all (reqProbeOk sc) &&
-  (!sc.tracing || L.count .flush == 1) &&
-  eachOnce (L.filterMap stopTag) sc.stops.length &&
-  L.all (stopProbeOk sc.stops.length) &&
-  !o.finApp && !o.finMet &&
+  o.log.all (reqProbeOk sc)
+
+/-- telemetry is flushed (once) and is down, the server is down, every OnStop hook runs exactly once -/
+def flushStopOk (sc : Scenario) (o : Obs) : Bool :=
+  (!sc.tracing || o.log.count .flush == 1) &&
+  eachOnce (o.log.filterMap stopTag) sc.stops.length &&
+  o.log.all (stopProbeOk sc.stops.length) &&
+  !o.finApp && !o.finMet
+
+/-- "… OnShutdown hooks …, then in-flight requests are drained, then telemetry is flushed, then OnStop
+    hooks run …, and Start returns only afterwards" -/
+def orderOk (L : List Ev) : Bool :=
   precedes isShut isFlush L && precedes isShut isStop L && precedes isShut isRet L &&
   precedes isReqFin isFlush L && precedes isReqFin isStop L && precedes isReqFin isRet L &&
   precedes isFlush isStop L && precedes isFlush isRet L && precedes isStop isRet L
+
+/-- the shutdown sequence when no panic leaves it -/
+def tailOk (sc : Scenario) (o : Obs) : Bool :=
+  o.log.filterMap shutTag == seqDown sc.shuts.length 0 &&
+  requestsOk sc o && flushStopOk sc o && orderOk o.log
 
 /-- the shutdown sequence after a successful start-up -/
 def shutdownOk (sc : Scenario) (o : Obs) : Bool :=
@@ -193,17 +203,24 @@ def noInterleave : List Nat → Bool
 
 /-! ### the language -/
 
+/-- Start returns, exactly once, and nothing but reload calls of the environment happens after it -/
+def returnsOnce (L : List Ev) : Bool := L.any isRet && (afterRet L).all isReload
+
+/-- OnStart hooks: sequential, in registration order, up to the first failure, before the listener opens -/
+def startsOk (sc : Scenario) (L : List Ev) : Bool :=
+  L.filterMap startTag == seqUp (runCount sc.starts) 0 && L.all startProbeOk
+
+/-- OnReady hooks: only registered ones, each at most once, only when the server accepts -/
+def readiesOk (sc : Scenario) (L : List Ev) : Bool :=
+  L.all (readyProbeOk sc.readies.length) && nodupNat (L.filterMap readyIdx)
+
+/-- reloads are serialised and never panic into their caller -/
+def reloadsOk (o : Obs) : Bool :=
+  noInterleave (o.log.filterMap reloadRound) && o.rounds.all (· != .panic)
+
 def holds (sc : Scenario) (o : Obs) : Bool :=
-  let L := o.log
   let failing := sc.starts.find? startFails
-  -- Start returns, exactly once, and nothing but reload calls of the environment happens after it
-  L.any isRet && (afterRet L).all isReload &&
-  -- OnStart hooks: sequential, in order, up to the first failure, before the listener opens
-  L.filterMap startTag == seqUp (runCount sc.starts) 0 && L.all startProbeOk &&
-  -- OnReady hooks
-  L.all (readyProbeOk sc.readies.length) && nodupNat (L.filterMap readyIdx) &&
-  -- reloads are serialised and never panic into their caller
-  noInterleave (L.filterMap reloadRound) && o.rounds.all (· != .panic) &&
+  returnsOnce o.log && startsOk sc o.log && readiesOk sc o.log && reloadsOk o &&
   (if failing.isNone && sc.listen == .ok then shutdownOk sc o else failedStartOk sc o failing)
 
 /-! ### classes of the findings of DESIGN.md §7 (on the scenario only) -/
